@@ -94,9 +94,21 @@ func (c *FnCtx) call(in ssa.CallInstruction, cc *ssa.CallCommon) Val {
 		// dynamic call through a function value
 		fv := c.val(cc.Value)
 		c.assert(c.curItems, "nilderef", "nilfunc", exprText(cc.Value), sNot(sEq(fv.T, "0")), in, nil, true)
-		c.note("calls through function values: result unconstrained; callee assumed not to modify the modelled heap (closures passed inside the module are checked side-effect free)")
+		if pv, ok := cc.Value.(*ssa.Parameter); ok && c.con != nil && c.con.Callsback[pv.Name()] {
+			c.havocAll("dyncall")
+		}
+		c.note("calls through function values: result unconstrained; unless the parameter is declared `callsback`, the callee is assumed not to modify the modelled heap (closures passed inside the module are checked side-effect free)")
+		var avals []Val
 		for _, a := range cc.Args {
-			c.val(a)
+			avals = append(avals, c.val(a))
+		}
+		if _, isParam := cc.Value.(*ssa.Parameter); isParam && !isTuple(resType) && !(c.con != nil && c.con.Callsback[cc.Value.Name()]) {
+			r := c.applyTerm(fv, avals, resType)
+			nv := c.freshConst("dyn", r.S)
+			c.defs = append(c.defs, sEq(nv, r.T))
+			r.T = nv
+			c.assume(c.curItems, c.typeFacts(r, st))
+			return r
 		}
 		return c.havocVal("dyn", resType, st, c.curItems)
 	}
@@ -154,16 +166,16 @@ func (c *FnCtx) call(in ssa.CallInstruction, cc *ssa.CallCommon) Val {
 		}
 	}
 	for _, a := range cc.Args {
-		if mc, ok := a.(*ssa.MakeClosure); ok {
+		if mc := asClosure(a); mc != nil {
 			c.assertClosureRequires(mc, in)
 		}
 	}
 	// purity of closures handed to module functions
 	if inMod {
-		for _, a := range cc.Args {
-			if mc, ok := a.(*ssa.MakeClosure); ok {
+		for ai, a := range cc.Args {
+			if mc := asClosure(a); mc != nil {
 				cf := mc.Fn.(*ssa.Function)
-				if len(c.V.ModSets[cf]) > 0 {
+				if len(c.V.ModSets[cf]) > 0 && !(con != nil && ai < len(callee.Params) && con.Callsback[callee.Params[ai].Name()]) {
 					c.assert(c.curItems, "purity", "purity", cf.Name(), "false", in, nil, true)
 				}
 			}
@@ -182,6 +194,16 @@ func (c *FnCtx) call(in ssa.CallInstruction, cc *ssa.CallCommon) Val {
 	}
 	preState := c.cur.clone()
 	r := c.applyContractFn(in, callee, con, key, sig, args, names, resType, inMod)
+	if inMod && len(con.Callsback) > 0 {
+		c.libCallbackEffects(cc) // the callee may run the closures it was handed
+	}
+	if !inMod {
+		for _, a := range cc.Args {
+			if pv, ok := a.(*ssa.Parameter); ok && c.con != nil && c.con.Callsback[pv.Name()] {
+				c.havocAll("libcallback")
+			}
+		}
+	}
 	if !inMod {
 		c.libCallbackEffects(cc)
 		if strings.HasSuffix(key, "typeutil.Map).Iterate") {
@@ -207,7 +229,7 @@ func (c *FnCtx) libCallbackEffects(cc *ssa.CallCommon) {
 	preCall := st.clone()
 	mods := map[string]bool{}
 	for _, a := range cc.Args {
-		if mc, ok := a.(*ssa.MakeClosure); ok {
+		if mc := asClosure(a); mc != nil {
 			cf := mc.Fn.(*ssa.Function)
 			for n := range c.V.ModSets[cf] {
 				mods[n] = true
@@ -222,8 +244,11 @@ func (c *FnCtx) libCallbackEffects(cc *ssa.CallCommon) {
 			}
 		}
 	}
+	if mods["*"] {
+		c.havocAll("cb")
+	}
 	for n := range mods {
-		if _, ok := c.arrSorts[n]; !ok {
+		if n == "*" || !c.ensureArr(n) {
 			continue
 		}
 		st.arr[n] = c.freshConst(n+"@cb", c.arrSorts[n])
@@ -237,7 +262,7 @@ func (c *FnCtx) libCallbackEffects(cc *ssa.CallCommon) {
 	// callback loop: asserted at hand-over (assertClosureRequires), re-established by the closure on
 	// every return (requires-preserved obligations), hence they hold after the library call.
 	for _, a := range cc.Args {
-		if mc, ok := a.(*ssa.MakeClosure); ok {
+		if mc := asClosure(a); mc != nil {
 			c.closureRequires(mc, func(r *Clause, f string) {
 				c.assume(c.curItems, f)
 			})
@@ -404,8 +429,30 @@ func (c *FnCtx) applyContract(in ssa.CallInstruction, callee *ssa.Function, con 
 			c.applyMod(env, m, st)
 		}
 	} else if callee != nil && !lib {
+		if c.V.ModSets[callee]["*"] {
+			// "*" stands for the effects of the callee's `callsback` parameters: if every such
+			// parameter is bound to a closure created here, those closures' own modification sets
+			// (applied by libCallbackEffects after the call) describe the effect precisely.
+			known := true
+			if cin, ok := in.(ssa.CallInstruction); ok {
+				for ai, a := range cin.Common().Args {
+					if ai < len(callee.Params) && con.Callsback[callee.Params[ai].Name()] {
+						switch {
+						case asClosure(a) != nil:
+						default:
+							if k, isConst := a.(*ssa.Const); !isConst || k.Value != nil {
+								known = false
+							}
+						}
+					}
+				}
+			}
+			if !known {
+				c.havocAll("call")
+			}
+		}
 		for n := range c.V.ModSets[callee] {
-			if _, ok := c.arrSorts[n]; !ok {
+			if n == "*" || !c.ensureArr(n) {
 				continue
 			}
 			st.arr[n] = c.freshConst(n+"@call", c.arrSorts[n])
@@ -431,7 +478,8 @@ func (c *FnCtx) applyContract(in ssa.CallInstruction, callee *ssa.Function, con 
 		c.assume(c.curItems, sAnd(sx("<=", pre.alloc, res.T), sx("<", res.T, st.alloc)))
 	}
 	// ensures
-	post := &SEnv{c: c, st: st, old: pre, vars: env.vars, bound: map[string]bool{}, callee: callee}
+	var applies []applyRec
+	post := &SEnv{c: c, st: st, old: pre, vars: env.vars, bound: map[string]bool{}, callee: callee, applies: &applies}
 	if res.IsTuple() {
 		post.results = res.Tup
 		for i := 0; i < sig.Results().Len() && i < len(res.Tup); i++ {
@@ -455,6 +503,21 @@ func (c *FnCtx) applyContract(in ssa.CallInstruction, callee *ssa.Function, con 
 			}
 			post.facts = nil
 			c.assume(c.curItems, f)
+		}
+	}
+	// link applications of function-valued parameters to the contract of the closure passed here
+	if cin, ok := in.(ssa.CallInstruction); ok && callee != nil {
+		for _, ar := range applies {
+			if mentionsBound(ar.Term) {
+				continue
+			}
+			for ai, a := range cin.Common().Args {
+				if ai < len(callee.Params) && callee.Params[ai].Name() == ar.Param {
+					if mc := asClosure(a); mc != nil {
+						c.instantiateClosure(mc, ar, st)
+					}
+				}
+			}
 		}
 	}
 	return res
@@ -765,4 +828,91 @@ func (c *FnCtx) checkAllocFieldInvs(x *ssa.Alloc, ref string) {
 		ob := c.assert(c.curItems, "fieldinv", "fieldinv", fi.Type+"."+fi.Field+" (zero value at allocation)", env.trGoal(fi.E), x, nil, true)
 		ob.Text = fi.Text
 	}
+}
+
+// havocAll: an unknown callback ran: every heap array known to this VC becomes arbitrary.
+func (c *FnCtx) havocAll(why string) {
+	st := c.cur
+	for n := range arrReg {
+		c.ensureArr(n)
+	}
+	for n, srt := range c.arrSorts {
+		st.arr[n] = c.freshConst(n+"@"+why, srt)
+	}
+	na := c.freshConst("alloc@"+why, SInt)
+	c.assume(c.curItems, sx("<=", st.alloc, na))
+	st.alloc = na
+	c.note("a `callsback` parameter was invoked: all modelled heap arrays are havocked at that point")
+}
+
+// instantiateClosure assumes the postcondition of the function behind closure mc for one
+// application (result := the application term), in state st.
+func (c *FnCtx) instantiateClosure(mc *ssa.MakeClosure, ar applyRec, st *State) {
+	cf := mc.Fn.(*ssa.Function)
+	target := cf
+	bound := strings.HasSuffix(cf.Name(), "$bound")
+	if bound {
+		if obj, ok := cf.Object().(*types.Func); ok {
+			if m := c.V.Prog.FuncValue(obj); m != nil {
+				target = m
+			}
+		}
+	}
+	con := c.V.contractOf(target)
+	if con == nil || len(con.Ensures) == 0 {
+		return
+	}
+	env := &SEnv{c: c, st: st, old: st, vars: map[string]Val{}, bound: map[string]bool{}}
+	if bound {
+		// parameters of the method: receiver = binding 0, then the call arguments
+		if len(target.Params) != 1+len(ar.Args) || len(mc.Bindings) != 1 {
+			return
+		}
+		env.vars[target.Params[0].Name()] = c.val(mc.Bindings[0])
+		for i, a := range ar.Args {
+			env.vars[target.Params[1+i].Name()] = a
+		}
+	} else {
+		for i, b := range mc.Bindings {
+			fv := cf.FreeVars[i]
+			bv := c.val(b)
+			if pt := derefType(fv.Type()); pt != nil {
+				env.vars[fv.Name()] = c.loadLoc(st, c.ptrLoc(bv.T, pt, false))
+			} else {
+				env.vars[fv.Name()] = bv
+			}
+		}
+		for i, a := range ar.Args {
+			if i < len(cf.Params) {
+				env.vars[cf.Params[i].Name()] = a
+			}
+		}
+	}
+	sig := target.Signature
+	env.results = []Val{{T: ar.Term, S: ar.S, GT: sig.Results().At(0).Type()}}
+	for _, r := range con.Requires {
+		// the linked function's preconditions must hold for the assumption to be justified
+		ok := true
+		var f string
+		func() {
+			defer func() {
+				if rec := recover(); rec != nil {
+					ok = false
+				}
+			}()
+			f = env.trGoal(r.E)
+		}()
+		if ok {
+			c.assert(c.curItems, "requires", "requires@closure-link", target.Name(), f, nil, nil, true)
+		}
+	}
+	for _, e := range con.Ensures {
+		f := env.trAssume(e.E)
+		for _, ft := range env.facts {
+			c.assume(c.curItems, ft)
+		}
+		env.facts = nil
+		c.assume(c.curItems, f)
+	}
+	c.note("closure link: " + target.Name() + " is assumed side-effect free and its postcondition is used for the application of the closure")
 }
